@@ -81,7 +81,11 @@ type midcycleEvent struct {
 	// touch one path are not.
 	path      string
 	countdown int
-	fire      func()
+	// afterOp, if set, replaces the countdown: the event strikes right after
+	// that system call on exactly that path (before the activity's next call).
+	afterOp string
+	armed   bool
+	fire    func()
 }
 
 var stackLabels = []simkit.StackLabel{
@@ -346,7 +350,18 @@ func (d *diskState) hook(op string, dirfd int, path string, dirfd2 int, path2 st
 	d.h.mu.Unlock()
 	// A root event armed to strike in the middle of a cycle (C11).
 	d.mu.Lock()
-	if m := d.midcycle; m != nil && m.side == gateSide && m.activity == activity && (m.path == "" || pathRelated(m.path, maskTemp(gateRel))) {
+	if m := d.midcycle; m != nil && m.afterOp != "" && m.side == gateSide && m.activity == activity {
+		// "right after that system call on exactly that path": armed by the
+		// call itself, struck before the next hooked call of the activity.
+		if m.armed {
+			d.midcycle = nil
+			d.mu.Unlock()
+			m.fire()
+			d.mu.Lock()
+		} else if op == m.afterOp && maskTemp(gateRel) == m.path {
+			m.armed = true
+		}
+	} else if m != nil && m.side == gateSide && m.activity == activity && (m.path == "" || pathRelated(m.path, maskTemp(gateRel))) {
 		m.countdown--
 		if m.countdown <= 0 {
 			d.midcycle = nil
@@ -965,7 +980,7 @@ func (d *diskState) userOp(op simkit.Op) {
 		act, kind, path := op.Str(1), op.Str(2), op.Str(3)
 		n, id := op.Int(0), op.Int(1)
 		d.mu.Lock()
-		d.midcycle = &midcycleEvent{side: side, activity: act, path: path, countdown: int(n), fire: func() {
+		d.midcycle = &midcycleEvent{side: side, activity: act, path: path, countdown: int(n), afterOp: op.Str(4), fire: func() {
 			d.h.s.Count("fault.fs_user_armed."+kind, 1)
 			d.userOp(simkit.Op{Actor: "user", Kind: kind, N: []int64{id, 0}, S: []string{side, path, "a"}})
 		}}
